@@ -227,6 +227,21 @@ func (ps *PathSum) call(s *psState, f *psFrame, x *ssa.Call) ([]*psOutcome, bool
 			return ps.continueWith(f, x, cont), true
 		}
 	}
+	if strings.HasPrefix(target, "handler:") && len(args) == 1 {
+		kind := "AsyncNotify"
+		if target == "handler:onAtomicDeletion" {
+			kind = "AtomicNotify"
+		}
+		ev := strings.TrimPrefix(args[0], "@")
+		fld := func(n string) string {
+			if v, ok := s.cells["&"+ev+"."+n]; ok {
+				return v
+			}
+			return "load(" + ev + "." + n + ")"
+		}
+		ps.emit(s, f, pos, kind, fld("Key"), fld("Value"), fld("Cause"))
+		return nil, false
+	}
 	res := ps.sym("user:" + strings.TrimPrefix(name, "param:") + "#")
 	ps.emit(s, f, pos, "UserCall", append([]string{strings.TrimPrefix(name, "param:"), res}, args...)...)
 	if strings.TrimPrefix(name, "param:") == "evictNode" {
@@ -290,6 +305,10 @@ func recvFieldName(cc *ssa.CallCommon) string {
 	}
 	return ""
 }
+
+// reshapable: roles whose effect is also recognised at its semantic sink (handler invocation, task fields at the
+// enqueue / replay, pool Put): when a maintainer changed the helper's parameter list it is inlined instead of summarised.
+var reshapable = map[string]bool{"AtomicNotify": true, "AsyncNotify": true, "Task": true, "PutTask": true}
 
 // callStatic handles a statically resolved callee: role, inline, or opaque. nil result = value bound, caller continues.
 func (ps *PathSum) callStatic(s *psState, f *psFrame, x ssa.Instruction, callee *ssa.Function, args []string, pos token.Pos) []*psOutcome {
@@ -402,7 +421,7 @@ func (ps *PathSum) callStatic(s *psState, f *psFrame, x ssa.Instruction, callee 
 		}
 		return nil
 	}
-	if kind, ok := r.eventFns[o]; ok && !(f.depth == 0 && origin(f.fn) == o) {
+	if kind, ok := r.eventFns[o]; ok && !(f.depth == 0 && origin(f.fn) == o) && (paramPerm(o) != nil || !reshapable[kind]) {
 		res := ""
 		if o.Signature.Results().Len() > 0 {
 			switch kind {
@@ -418,6 +437,11 @@ func (ps *PathSum) callStatic(s *psState, f *psFrame, x ssa.Instruction, callee 
 				res = ps.sym("shouldDrain")
 			default:
 				res = ps.sym("res:" + kind + "#")
+			}
+		}
+		if kind == "Enqueue" || kind == "RunTask" {
+			for i := 1; i < len(args); i++ {
+				args[i] = ps.taskTerm(s, args[i])
 			}
 		}
 		ps.emit(s, f, pos, kind, args[1:]...)
@@ -437,6 +461,13 @@ func (ps *PathSum) callStatic(s *psState, f *psFrame, x ssa.Instruction, callee 
 	}
 	switch {
 	case pkg == "sync" && o.Signature.Recv() != nil:
+		if o.Name() == "Put" && cc != nil && len(cc.Args) == 2 && namedTypeName(cc.Args[1].Type()) == "" {
+			// returning a replay task to its pool (the semantic sink of putTask)
+			if mi, ok := cc.Args[1].(*ssa.MakeInterface); ok && namedTypeName(mi.X.Type()) == "task" {
+				ps.emit(s, f, pos, "PutTask", args[1])
+				return nil
+			}
+		}
 		ps.emit(s, f, pos, "Sync", append([]string{o.Name()}, args...)...)
 		if o.Signature.Results().Len() > 0 {
 			bind(ps.sym("sync:" + o.Name() + "#"))
@@ -511,4 +542,47 @@ func (ps *PathSum) errNotFoundTerm() string {
 		v = v[:16]
 	}
 	return "str(" + v + ")"
+}
+
+// taskTerm renders a replay task by its contents: task(n,old,reason,cause). A task built by the summarised getTask is
+// already such a term; one built by inlined code (pool hit: field stores, pool miss: literal) is read from its fields.
+func (ps *PathSum) taskTerm(s *psState, t string) string {
+	if strings.HasPrefix(t, "task(") || t == "nil" {
+		return t
+	}
+	base := strings.TrimPrefix(t, "&")
+	var parts []string
+	for _, f := range []string{"n", "old", "writeReason", "deletionCause"} {
+		v, ok := s.cells["&"+base+"."+f]
+		if !ok {
+			return t
+		}
+		parts = append(parts, v)
+	}
+	return "task(" + strings.Join(parts, ",") + ")"
+}
+
+// splitArgs splits "f(a,b(c,d),e)" -> [a b(c,d) e]
+func splitArgs(t string) []string {
+	i := strings.Index(t, "(")
+	if i < 0 || !strings.HasSuffix(t, ")") {
+		return nil
+	}
+	in := t[i+1 : len(t)-1]
+	var out []string
+	depth, start := 0, 0
+	for j := 0; j < len(in); j++ {
+		switch in[j] {
+		case '(':
+			depth++
+		case ')':
+			depth--
+		case ',':
+			if depth == 0 {
+				out = append(out, in[start:j])
+				start = j + 1
+			}
+		}
+	}
+	return append(out, in[start:])
 }
